@@ -43,8 +43,10 @@ Names(chars, ann, alwaysLong) ==
        ELSE [shorts |-> <<>>, longs |-> <<"--" \o Kebab(chars)>>]
   ELSE [shorts |-> IF ann.short = "none" THEN <<>>
                    ELSE IF ann.short = "auto" THEN <<"-" \o KebabFirst(chars)>> ELSE <<"-" \o ann.short>>,
-        longs  |-> IF ann.long = "none" THEN <<>>
-                   ELSE IF ann.long = "auto" THEN <<"--" \o Kebab(chars)>> ELSE <<"--" \o ann.long>>]
+        longs  |-> (IF ann.long = "none" THEN <<>>
+                    ELSE IF ann.long = "auto" THEN <<"--" \o Kebab(chars)>> ELSE <<"--" \o ann.long>>)
+                   \* a second `long(..)` is an alias
+                   \o (IF "alias" \in DOMAIN ann /\ ann.alias # "" THEN <<"--" \o ann.alias>> ELSE <<>>)]
 
 Letters(shorts) == [i \in DOMAIN shorts |-> "?"]      \* not used by the families of this property
 
@@ -52,8 +54,8 @@ Letters(shorts) == [i \in DOMAIN shorts |-> "?"]      \* not used by the familie
 Ann(f, k, dflt) == IF k \in DOMAIN f.ann THEN f.ann[k] ELSE dflt
 Leaf(id, kind, arity, vt, nm, f, metavar) ==
   [id |-> id, kind |-> kind, arity |-> arity, vt |-> vt, shorts |-> nm.shorts, longs |-> nm.longs,
-   letters |-> Letters(nm.shorts), env |-> Ann(f, "env", ""), adj |-> FALSE, guard |-> FALSE, hidden |-> f.ann.hide,
-   help |-> f.help, catch |-> FALSE, lchars |-> <<>>, completer |-> <<>>, metavar |-> metavar,
+   letters |-> Letters(nm.shorts), env |-> Ann(f, "env", ""), adj |-> FALSE, guard |-> Ann(f, "guard", FALSE) = TRUE, hidden |-> f.ann.hide,
+   help |-> f.help, catch |-> Ann(f, "catch", FALSE) = TRUE, lchars |-> <<>>, completer |-> <<>>, metavar |-> metavar,
    hide_usage |-> Ann(f, "hide_usage", FALSE), custom_usage |-> Ann(f, "custom_usage", "")]
 
 \* a named field
@@ -62,13 +64,17 @@ NamedField(f, id) ==
       mv == IF f.ann.argument = "" THEN "ARG" ELSE f.ann.argument IN
   CASE f.ty = "bool" -> Leaf(id, "switch", "sw", "none", nm, f, mv)
     [] f.ty = "unit" -> Leaf(id, "reqflag", "one", "none", nm, f, mv)
-    [] f.ty = "T"    -> Leaf(id, "arg", IF f.ann.fallback THEN "fallback" ELSE "one", Vt(f.base), nm, f, mv)
+    \* explicit annotations override exactly what they name: `some(..)` on a Vec, `last` on a plain field,
+    \* `req_flag(()), count` on a usize field, `optional, catch`, `guard(..)`
+    [] f.ty = "count" -> Leaf(id, "reqflag", "count", "none", nm, f, mv)
+    [] f.ty = "T"    -> Leaf(id, "arg", IF f.ann.fallback THEN "fallback" ELSE IF Ann(f, "arity", "") = "last" THEN "last" ELSE "one",
+                             Vt(f.base), nm, f, mv)
     [] f.ty = "opt"  -> Leaf(id, "arg", "opt", Vt(f.base), nm, f, mv)
-    [] f.ty = "vec"  -> Leaf(id, "arg", "many", Vt(f.base), nm, f, mv)
+    [] f.ty = "vec"  -> Leaf(id, "arg", IF Ann(f, "arity", "") = "some" THEN "some" ELSE "many", Vt(f.base), nm, f, mv)
 
 PosField(f, id) ==
   [id |-> id, kind |-> "pos", arity |-> (CASE f.ty = "opt" -> "opt" [] f.ty = "vec" -> "many" [] OTHER -> "one"),
-   strict |-> "any", vt |-> Vt(f.base), help |-> f.help,
+   strict |-> (IF Ann(f, "strict", "") = "" THEN "any" ELSE f.ann.strict), vt |-> Vt(f.base), help |-> f.help,
    metavar |-> IF f.ann.posmeta = "" THEN "ARG" ELSE f.ann.posmeta, hidden |-> f.ann.hide]
 
 IsPos(td, f) == td.shape = "tuple" \/ f.ann.positional
